@@ -16,6 +16,7 @@ package gomatrixserverlib
 
 import (
 	"context"
+	"encoding/json"
 	"fmt"
 	"time"
 
@@ -141,6 +142,18 @@ func HandleInviteV3(ctx context.Context, input HandleInviteV3Input) (PDU, error)
 	// Check that the room ID is correct.
 	if input.InviteProtoEvent.RoomID != input.RoomID.String() {
 		return nil, spec.BadJSON("The room ID in the request path must match the room ID in the invite event JSON")
+	}
+
+	// Check that this is in fact an invite: anything else must not be completed and signed
+	// with the invited user's room key.
+	if input.InviteProtoEvent.Type != spec.MRoomMember {
+		return nil, spec.BadJSON("The event must be an m.room.member event")
+	}
+	var protoContent struct {
+		Membership string `json:"membership"`
+	}
+	if err = json.Unmarshal(input.InviteProtoEvent.Content, &protoContent); err != nil || protoContent.Membership != spec.Invite {
+		return nil, spec.BadJSON("The event membership must be 'invite'")
 	}
 
 	// NOTE: If we already have a senderID for this user in this room,
